@@ -27,6 +27,40 @@ class Mgr(R):
     pass
 
 
+class RFalsy(R):
+    """An object with a false truth value (an unstarted greenlet, an empty container, 0): `is None` is the only test that may
+    decide whether there is a root / leaf / manager."""
+
+    def __bool__(self):
+        return False
+
+
+class REmpty(R):
+    def __len__(self):
+        return 0
+
+
+class RArray(R):
+    """Array-like: comparison does not give a truth value (numpy / pandas / SQL-expression style)."""
+
+    def __eq__(self, other):
+        raise TypeError("the truth value of a comparison with this object is ambiguous")
+
+    __ne__ = __eq__
+    __hash__ = object.__hash__
+
+
+def rnd_obj(rng, text: str, cls=R):
+    r = rng.random()
+    if r < 0.12:
+        return RFalsy(text)
+    if r < 0.2:
+        return REmpty(text)
+    if r < 0.28:
+        return RArray(text)
+    return cls(text)
+
+
 def pool():
     global _pool
     if _pool is None:
@@ -36,8 +70,12 @@ def pool():
 
 def mk_error(rng: random.Random):
     r = rng.random()
-    if r < 0.4:
+    if r < 0.3:
         return ValueError("boom")
+    if r < 0.4:
+        # characters str.splitlines() treats as line boundaries but that do not end a line of the output ("\r" is left to the
+        # error-lines leg: the driver's output is read in text mode)
+        return RuntimeError(rng.choice(["form\x0cfeed", "unit\x1dsep", "file\x1csep", "v\x0btab\nsecond"]))
     if r < 0.6:
         return RuntimeError("two\nlines")
     if r < 0.8:
@@ -70,8 +108,8 @@ def rnd_stack(rng: random.Random, depth: int, width: int):
 
     nf = rng.randrange(0, width + 1) if depth > 0 else rng.randrange(0, 2)
     frames = [rnd_frame(rng, depth, width) for _ in range(nf)]
-    return stackscope.Stack(root=(R("root%d" % rng.randrange(9)) if rng.random() < 0.7 else None), frames=frames,
-                            leaf=(R("<leaf %d>" % rng.randrange(9)) if rng.random() < 0.3 else None),
+    return stackscope.Stack(root=(rnd_obj(rng, "root%d" % rng.randrange(9)) if rng.random() < 0.7 else None), frames=frames,
+                            leaf=(rnd_obj(rng, "<leaf %d>" % rng.randrange(9)) if rng.random() < 0.3 else None),
                             error=(mk_error(rng) if rng.random() < 0.25 else None))
 
 
@@ -92,7 +130,7 @@ def rnd_frame(rng, depth, width):
 def rnd_ctx(rng, depth, width):
     import stackscope
 
-    c = stackscope.Context(obj=(Mgr("<mgr %d>" % rng.randrange(9)) if rng.random() < 0.5 else None), is_async=rng.random() < 0.5,
+    c = stackscope.Context(obj=(rnd_obj(rng, "<mgr %d>" % rng.randrange(9), Mgr) if rng.random() < 0.5 else None), is_async=rng.random() < 0.5,
                            varname=(rng.choice(["x", "a.b", ""]) if rng.random() < 0.5 else None),
                            start_line=(rng.choice([5, 6, 12, 0, 9999]) if rng.random() < 0.5 else None),
                            description=(rng.choice(["desc(...)", "other", ""]) if rng.random() < 0.5 else None),
@@ -123,7 +161,9 @@ def error_lines(err) -> Optional[List[str]]:
     out = []
     for line in traceback.format_exception(type(err), err, err.__traceback__):
         if line != "Traceback (most recent call last):\n":
-            out.extend(line.splitlines(True))
+            # the specification, not the implementation: one element per "\n"-terminated line of the traceback text
+            body = line[:-1] if line.endswith("\n") else line
+            out.extend(piece + "\n" for piece in body.split("\n"))
     return out
 
 
